@@ -41,6 +41,8 @@ structure St where
   pf : List (Bytes × Acc Bytes) := []
   /-- routers whose model state is unknown because a mutation was outside the modelled domain -/
   tainted : List Nat := []
+  /-- Hosts matchers whose model state is unknown for the same reason -/
+  taintedHosts : List Nat := []
   deriving Inhabited
 
 def lookup {α : Type} (l : List (Nat × α)) (k : Nat) : Option α := (l.find? (·.1 = k)).map (·.2)
@@ -210,6 +212,13 @@ def decNatMap (tok : String) : List (Nat × Nat) :=
       | _, _ => none
     | _ => none)
 
+/-- the Hosts instances a matcher expression refers to -/
+partial def matcherHosts : Matcher → List Nat
+  | .hosts id => [id]
+  | .and ms => ms.flatMap matcherHosts
+  | .or ms => ms.flatMap matcherHosts
+  | _ => []
+
 def withRouter (st : St) (rid : String) (f : Nat → Router → St × String) : St × String :=
   match rid.toNat? with
   | some id =>
@@ -304,19 +313,23 @@ def step (st : St) (line : String) : St × String :=
     match hid.toNat? with
     | some id =>
       match (decL domains).foldlM (fun hs d => hs.add d) Hosts.empty with
-      | .ok hs => ({ st with hosts := update st.hosts id hs }, "ok")
+      | .ok hs => ({ st with hosts := update st.hosts id hs, taintedHosts := st.taintedHosts.filter (· ≠ id) }, "ok")
+      | .error .unsupported => ({ st with hosts := update st.hosts id Hosts.empty, taintedHosts := id :: st.taintedHosts }, "unsupported")
       | .error e => (st, fmtErr e)
     | none => (st, "bad-op")
   | ["hosts-add", hid, domain] =>
     match hid.toNat? >>= (fun id => (lookup st.hosts id).map (fun h => (id, h))) with
     | some (id, hs) =>
+      if st.taintedHosts.contains id then (st, "unsupported") else
       match hs.add (decB domain) with
       | .ok hs' => ({ st with hosts := update st.hosts id hs' }, "ok")
+      | .error .unsupported => ({ st with taintedHosts := id :: st.taintedHosts }, "unsupported")
       | .error e => (st, fmtErr e)
     | none => (st, "bad-op")
   | ["hosts-del", hid, domain] =>
     match hid.toNat? >>= (fun id => (lookup st.hosts id).map (fun h => (id, h))) with
     | some (id, hs) =>
+      if st.taintedHosts.contains id then (st, "unsupported") else
       match hs.delete (decB domain) with
       | .ok hs' => ({ st with hosts := update st.hosts id hs' }, "ok")
       | .error e => (st, fmtErr e)
@@ -324,6 +337,7 @@ def step (st : St) (line : String) : St × String :=
   | ["hosts-icpt", hid, rule, icid] =>
     match hid.toNat? >>= (fun id => (lookup st.hosts id).map (fun h => (id, h))) with
     | some (id, hs) =>
+      if st.taintedHosts.contains id then (st, "unsupported") else
       match hs.registerInterceptor (icid.toNat?.getD 0) (decB rule) with
       | some hs' => ({ st with hosts := update st.hosts id hs' }, "ok")
       | none => (st, "reject:dup-interceptor")
@@ -331,6 +345,7 @@ def step (st : St) (line : String) : St × String :=
   | ["hosts-match", hid, host] =>
     match hid.toNat? >>= lookup st.hosts with
     | some hs =>
+      if st.taintedHosts.contains (hid.toNat?.getD 0) then (st, "unsupported") else
       match hs.match env (decB host) [] [] with
       | .accept _ ps => (st, "match 1 " ++ encM ps)
       | .reject _ ps => (st, "match 0 " ++ encM ps)
@@ -417,7 +432,7 @@ def step (st : St) (line : String) : St × String :=
   | ["gserve", gid, method, path, host, hdrs, accept] =>
     match gid.toNat? >>= lookup st.groups with
     | some grp =>
-      if grp.routers.any (fun e => st.tainted.contains e.1) then (st, "unsupported")
+      if grp.routers.any (fun e => st.tainted.contains e.1 ∨ (matcherHosts e.2).any st.taintedHosts.contains) then (st, "unsupported")
       else (st, fmtServe (grp.serveHTTP env st.hostsTab st.pc st.scripts st.routers (mkReq method path host hdrs accept)))
     | none => (st, "bad-op")
   -- handler behaviour
